@@ -11,6 +11,12 @@ scenario is executed on the real public `resolve_host_all` of a `DnsResolver::cu
 resolver)` under tokio's paused clock (harness/src/bin/vh_dns.rs c35); the observed item sequence
 with instants, and the resolver calls, must equal one of TLC's behaviours for that scenario.
 
+Growth beyond the property: the same spec also models the join-based entry points that share the
+lookups — `resolve_host(url, prefer_ipv6, timeout)` (api "one4"/"one6": first address of the
+preferred family, else of the other, else NoResponse; ResolveBoth iff both fail) and
+`lookup_ipv4_ipv6(host, timeout)` (api "join": all IPv4 then all IPv6 addresses) — with the
+invariants PreferredFamily, JoinReturnsAll, JoinWaitsForBoth, bound the same way.
+
 Mutation self-test (2026-09-22): in the unfold loop `Err(err) => state.v6_err = Some(err)` changed
 to also `state.closed = true` and yield the error at once ("stream errors when one family fails")
 => VIOLATION kind=items; undone => exit 0.
@@ -22,8 +28,8 @@ from vlib import ToolError
 META = {
     "level": "model_checking",
     "engine": "dns-resolver",
-    "technique": "TLA+ spec DualStack checked by TLC; every TLC behaviour replayed on the real resolve_host_all stream under "
-                 "virtual time (mode A)",
+    "technique": "TLA+ spec DualStack checked by TLC; every TLC behaviour replayed on the real resolve_host_all stream (and on "
+                 "resolve_host / lookup_ipv4_ipv6) under virtual time (mode A)",
     "text": "TLC enumerates all completion orders, result sizes, failures and timeouts of the two family lookups and all URL "
             "host kinds, checks on the model that the stream yields every address as its lookup completes, ends with the "
             "combined error iff both failed and with no-response iff nothing was yielded, and yields IP literals directly; "
@@ -36,6 +42,8 @@ META = {
 }
 
 TIMEOUT = 12
+API = {"all": "resolve_host_all", "one4": "resolve_host(prefer_ipv6=false)", "one6": "resolve_host(prefer_ipv6=true)",
+       "join": "lookup_ipv4_ipv6"}
 
 
 def key(scn):
@@ -45,7 +53,7 @@ def key(scn):
 def run(ctx):
     durs = ctx.pick("{0, 3, 5, 13}", "{0, 1, 3, 5, 11, 12, 13, 40}")
     res = ctx.tlc("dns", "MC_DualStack", cfg="DualStack.cfg", mode="gen", constants={"Durs": durs}, timeout=1800,
-                  require_actions=["Create", "Once", "OnceEnd", "UClosed", "UPop", "UFinish", "USelect4", "USelect6"])
+                  require_actions=["Create", "Once", "OnceEnd", "UClosed", "UPop", "UFinish", "USelect4", "USelect6", "Join", "Answer"])
     allowed = {}
     for b in res.replays:
         allowed.setdefault(key(b["scn"]), {"scn": b["scn"], "outs": [], "calls": b["calls"]})["outs"].append(b["out"])
@@ -64,7 +72,7 @@ def run(ctx):
         scn = c["scn"]
         dom = scn["host"] == "domain"
         ctx.count(case_key=scn, nontrivial=dom)
-        cls = {"host": scn["host"],
+        cls = {"api": scn["api"], "host": scn["host"],
                "v4": "-" if not dom else ("timeout" if scn["e4"]["dur"] > TIMEOUT else scn["e4"]["kind"]),
                "v6": "-" if not dom else ("timeout" if scn["e6"]["dur"] > TIMEOUT else scn["e6"]["kind"])}
         if dom and len(c["outs"]) > 1:
@@ -81,7 +89,7 @@ def run(ctx):
             if "pending" in terms or "runaway" in terms:
                 kind = "no_end"
             ctx.report(dict(cls, kind=kind),
-                       "resolve_host_all yielded %s; the spec allows %s" % (brief(o["out"]), " or ".join(brief(x) for x in c["outs"])),
+                       "%s yielded %s; the spec allows %s" % (API[scn["api"]], brief(o["out"]), " or ".join(brief(x) for x in c["outs"])),
                        {"scn": scn, "observed": o, "allowed": c["outs"]})
             continue
         got = sorted((x["fam"], x["at"]) for x in o["calls"])
@@ -89,7 +97,7 @@ def run(ctx):
         if got != exp:
             ctx.report(dict(cls, kind="calls"), "resolver calls %s, the spec has %s (both families at once for a domain, none otherwise)"
                        % (got, exp), {"scn": scn, "observed": o})
-    ctx.cov["rule"] = ("scenario = host kind x (answer kind, address count, duration vs timeout) per family, enumerated by TLC; "
+    ctx.cov["rule"] = ("scenario = entry point (resolve_host_all / resolve_host v4-, v6-preferred / lookup_ipv4_ipv6) x host kind x (answer kind, address count, duration vs timeout) per family, enumerated by TLC; "
                        "every scenario is executed; non-trivial = domain host")
     ctx.cov["exhaustive"] = True
     ctx.assume("tokio paused clock: timers fire at whole milliseconds; the consumer polls the stream eagerly")
